@@ -77,6 +77,7 @@ uint64_t clock_ns();
 void set_op(int opid);         // coordinate: following points belong to op 'opid' (negative = harness phases)
 uint64_t op_invoke(int opid);  // set_op + TSO drain + K_INVOKE point; returns the stamp
 uint64_t op_return();          // TSO drain + K_RETURN point; returns the stamp
+void uninterruptible(bool on);  // like sequential(), and a long run of loads is not taken for a spin (the caller must not wait for another thread inside)
 void sequential(bool on);      // sequential mode: switch only when the running thread blocks; faults off
 void faults_enabled(bool on);
 long decide(int dkind, int permille, long val_if_fired = 1);   // harness-level seeded decision (0 = not fired)
